@@ -65,6 +65,7 @@ type Case struct {
 	Seed     uint64        `json:"seed"`    // latency PRNG
 	GenSeed  uint64        `json:"genseed"` // generator seed (regenerates the case)
 	Mount    bool          `json:"mount"`    // the destination also implements registry.Mounter; MountFrom returns candidates
+	Sched    bool          `json:"sched"`    // run under testing/synctest with a PRNG-controlled scheduler
 	Thorough bool          `json:"thorough"` // generated with the thorough-tier size distribution
 }
 
@@ -91,6 +92,7 @@ type rec struct {
 	lmu    sync.Mutex
 	lat    *common.Rand
 	bytes  [][]byte // generator's bytes per node (what a successful mount makes available)
+	sched  *sched   // controlled schedules: every delay point parks until the scheduler releases it
 }
 
 func (r *rec) node(d ocispec.Descriptor) int {
@@ -118,6 +120,10 @@ func (r *rec) ev(tok string, dsrc, ddst int) {
 
 // delay varies the interleaving: nothing, yields, or a short sleep.
 func (r *rec) delay() {
+	if r.sched != nil {
+		r.sched.yield()
+		return
+	}
 	r.lmu.Lock()
 	v := r.lat.Intn(12)
 	a := r.lat.Intn(64)
@@ -211,6 +217,9 @@ type dstW struct {
 // recorded order of Exists/Push events is the order of their effects.  Operations
 // on different digests are not affected.
 func (d *dstW) lockDigest(t ocispec.Descriptor) func() {
+	if d.r.sched != nil {
+		return func() {} // controlled schedules park inside operations: no blocking locks there (no twins generated)
+	}
 	m, _ := d.dmu.LoadOrStore(t.Digest.String(), &sync.Mutex{})
 	mu := m.(*sync.Mutex)
 	mu.Lock()
@@ -522,6 +531,10 @@ func Execute(c *Case) *Result {
 
 	r := &rec{idx: map[dkeyT]int{}, lat: common.NewRand(c.Seed)}
 	for _, n := range g.Nodes {
+		if _, dup := r.idx[keyOf(n.Desc)]; dup {
+			res.SetupErr = fmt.Errorf("generator produced two nodes with the same descriptor (node %d)", n.ID)
+			return res
+		}
 		r.idx[keyOf(n.Desc)] = n.ID
 		r.bytes = append(r.bytes, n.Bytes)
 	}
@@ -565,9 +578,7 @@ func Execute(c *Case) *Result {
 		},
 	}
 
-	done := make(chan struct{})
-	go func() {
-		defer close(done)
+	runCopy := func() {
 		switch c.Mode {
 		case "g":
 			var d content.Storage = dw
@@ -608,15 +619,31 @@ func Execute(c *Case) *Result {
 			}
 			res.Returned, res.Err = oras.Copy(ctx, s, c.SrcRef, d, c.DstRef, opts)
 		}
-	}()
-	select {
-	case <-done:
-	case <-time.After(40 * time.Second):
-		res.Hang = true
-		r.mu.Lock()
-		res.Toks = append([]string(nil), r.toks...)
-		r.mu.Unlock()
-		return res
+	}
+	if c.Sched && T != nil { // (the plain binary has no testing.T: free-running instead)
+		r.sched = &sched{rng: common.NewRand(c.Seed ^ 0x5ced)}
+		if !runScheduled(r.sched, runCopy) {
+			res.Hang = true
+			r.mu.Lock()
+			res.Toks = append([]string(nil), r.toks...)
+			r.mu.Unlock()
+			return res
+		}
+	} else {
+		done := make(chan struct{})
+		go func() {
+			defer close(done)
+			runCopy()
+		}()
+		select {
+		case <-done:
+		case <-time.After(40 * time.Second):
+			res.Hang = true
+			r.mu.Lock()
+			res.Toks = append([]string(nil), r.toks...)
+			r.mu.Unlock()
+			return res
+		}
 	}
 	if res.Err == nil {
 		r.ev("RT.1", 0, 0)
